@@ -16,6 +16,10 @@ ENTRYBUF_MODEL = [
     Stream('c20.curm', 5000, 100000, 'model', timeout=1500),
     Stream('c20.treem', 5000, 100000, 'model', timeout=1500),
     Stream('c20.linem', 5000, 100000, 'model', timeout=1500),
+    # resumed iteration (LineProgram::sequences + resume_from) against the one-shot rows: C04's generators and
+    # `resume-mismatch` oracle, run here because resumption is a C20 clause
+    Stream('c04.seq', 2000, 40000, 'model'),
+    Stream('c04.any', 4000, 80000, 'model'),
 ]
 ABBREV_CACHE = [Stream('c20.cache', 400, 40000, 'oracle', timeout=900, exhaustive='every corpus variant x strategies none/Duplicates/All (populated once and twice), abbreviation offsets shared / damaged / invalid')]
 
